@@ -207,3 +207,23 @@ package types
 //@ global HighestWrkChainIDKey abstracts wrk_key(HighestWrkChainIDKey) == kHighest
 //@ global RegisteredWrkChainPrefix abstracts wrk_prefix(RegisteredWrkChainPrefix) == pAllWrkChains
 //@ global RecordedWrkChainBlockHashPrefix abstracts wrk_prefix(RecordedWrkChainBlockHashPrefix) == pAllBlocks
+
+// ---------------------------------------------------------------- signers (C13): the transaction must be signed by exactly the party the operation belongs to
+
+//@ func MsgRegisterWrkChain.GetSigners(msg) (signers)
+//@   props C13
+//@   requires validBech32(msg.Owner)
+//@   nopanic
+//@   ensures len(signers) == 1 && signers[0] == addrOf(msg.Owner)
+
+//@ func MsgRecordWrkChainBlock.GetSigners(msg) (signers)
+//@   props C13
+//@   requires validBech32(msg.Owner)
+//@   nopanic
+//@   ensures len(signers) == 1 && signers[0] == addrOf(msg.Owner)
+
+//@ func MsgPurchaseWrkChainStateStorage.GetSigners(msg) (signers)
+//@   props C13
+//@   requires validBech32(msg.Owner)
+//@   nopanic
+//@   ensures len(signers) == 1 && signers[0] == addrOf(msg.Owner)
